@@ -889,10 +889,18 @@ func (w *World) ApplyPendingTo(m *Model, p *pending, only map[uint32]bool) {
 	}
 	for _, pw := range p.writes {
 		r := m.Live[pw.off]
+		x := pw.w
 		if r == nil {
+			// a write to a row that is not (or no longer) live stores nothing; what the
+			// implementation may leave behind at that offset is remembered for the witness
+			if !x.Merge && !x.SetTTL && !x.Extend && x.Col != "" {
+				if m.Ghost[x.Col] == nil {
+					m.Ghost[x.Col] = map[uint32]Val{}
+				}
+				m.Ghost[x.Col][pw.off] = x.V
+			}
 			continue
 		}
-		x := pw.w
 		switch {
 		case x.SetTTL:
 			var n int64
